@@ -17,6 +17,8 @@ def schedules():
     for s in STEPS:
         for k in ("crash", "perm", "oserr"):
             out.append({s: k})
+    out.append({"target_write": "crash"})   # only reached if the code ever opens the target itself for writing
+    out.append({"target_write": "oserr"})
     out.append({"write": "crashmid"})
     out.append({"write": "oserrmid"})
     for s in STEPS[1:6]:
